@@ -85,8 +85,25 @@ def run(ctx):
         if msgs and len(ctx.violations) < 3:
             ctx.violation('%s:%s/%s' % (kind, tgt, c), 'C02 fails on the implementation: ' + msgs[0],
                           dict(harness='h_%s.cpp' % ('pool' if kind == 'coll' else kind), config=c, script=r['case']['script'].split('\n'), all=msgs[:5]))
+    # joint memory (bumped from the object's own block, fence size 0 whatever the configuration): every piece aligned as its
+    # element type asks and inside the joint memory, in the fence configurations too
+    from checks import c11
+    from vlib import proc
+    jlines = c11.gen_lines(ctx.rng, thorough); joint_checked = 0
+    for c in [x for x in cfgs if x != 'rel']:
+        exe = build.build_harness('joint', c, ['h_joint.cpp'])
+        out = proc.run([exe], input='\n'.join(jlines) + '\n', timeout=300)
+        for ln in out.stdout.split('\n'):
+            if ln.startswith('j ') and ' =' in ln:
+                joint_checked += 1
+                why = c11.oracle(ln)
+                if why and ('not aligned' in why or 'outside' in why or 'overlap' in why) and len(ctx.violations) < 3:
+                    ctx.violation('joint/%s/%s' % (ln.split(' =')[0], c), 'C02 fails on the implementation: joint memory: %s (%s)' % (why, ln.split(' =')[0]), dict(harness='h_joint.cpp', config=c, input=ln.split(' =')[0], output=ln))
+        if out.returncode != 0 and len(ctx.violations) < 3:
+            ctx.violation('joint-crash/%s' % c, 'C02 fails on the implementation: joint allocations crashed (exit status %d) after: %s' % (out.returncode, out.stdout.strip().split('\n')[-1][:100]), dict(harness='h_joint.cpp', config=c))
     ctx.tie_broken = ctx.tie_broken[:6]
     ctx.cov.update(dict(
+        joint_cases_checked=joint_checked,
         tie=dict(kind='results replayed against the models (pools: must be runs of ceil(bytes/node size) consecutive free nodes; stacks/iteration: exact address); every byte of count*size is written and read back by the harness; alignment of every result checked against the request',
                  configs=cfgs, histories_by_kind=per, histories=len(cases), operations=ops, successful_allocations_checked=checked, divergences=div),
         evaluations=len(cases), distinct_nontrivial=len(set(c['script'] for c in cases)),
